@@ -69,6 +69,8 @@ public:
     dj::database db;
     sqlite3* handle = nullptr;
     std::string uuid;
+    eng::engine_schema loaded_schema{};  // what load_database reported (mode 1 only)
+    std::string directory;
     std::vector<dj::track> tracks;  // by creation order; removed ones stay (stale handles)
     std::vector<dj::crate> crates;
 
@@ -95,7 +97,7 @@ dj::track_snapshot example_snapshot(int kind, int n);
 
 // Full observation of a world through the public API only, as canonical text (one line per fact).
 // Handles listed in tracks/crates are observed (stale ones through is_valid()/id() only).
-std::string observe(World& w, bool include_track_fields = true);
+std::string observe(World& w, bool include_track_fields = true, bool include_handles = true);
 std::string observe_track(const dj::track& t);
 std::string snapshot_str(const dj::track_snapshot& s);  // one "snapshot.<field> = <text>" line per field
 // parse "name = value" lines into a map (name without the "track#<id>." prefix when strip_prefix is given)
